@@ -32,6 +32,20 @@ def norm2 [Add α] [Mul α] [NatCast α] [HasSqrt α] (l : List α) : α := HasS
 
 end vec
 
+/-- `_Settings.scale`: with `guard` a spread that is not positive (constant column: 0; single value: NaN) is
+taken as 1 — that measurement is compared unscaled; without it the raw `data.std()` is the divisor -/
+def effScale {α : Type} [LT α] [DecidableLT α] [NatCast α] (guard : Bool) (s : α) : α :=
+  if guard then (if ((0 : Nat) : α) < s then s else ((1 : Nat) : α)) else s
+
+/-- `_Settings.loss`: `loss_fn(data_scaled, (prediction - mean) / scale)` if `standard_scale` else
+`loss_fn(data, prediction)` — the data goes into the FIRST parameter, the prediction into the second -/
+def scaledLoss {α : Type} [Sub α] [Div α] [LT α] [DecidableLT α] [NatCast α] (guard : Bool)
+    (lossFn : List α → List α → α) (standardScale : Bool) (mean scale : α) (data prediction : List α) : α :=
+  if standardScale then
+    lossFn (vmap (fun x => (x - mean) / effScale guard scale) data)
+      (vmap (fun x => (x - mean) / effScale guard scale) prediction)
+  else lossFn data prediction
+
 instance : HasAbs Rat := ⟨fun x => if x < 0 then -x else x⟩
 
 /-! ### fit wrappers -/
